@@ -157,11 +157,86 @@ def crlf_pairs(chk, cases):
             chk.violation({"kind": "oracle", "engine": "markers", "case": c, "lf": x, "crlf": y, "clause": "CRLF and LF sources must be filtered identically"}, tag="crlf")
 
 
+def cli_stream(chk, n):
+    """The --excl-* options as the CLI wires them (main.rs builds the FileFilter): lcov and JaCoCo inputs,
+    with and without --branch; the reported record must be the input record minus exactly the excluded data."""
+    import os, subprocess, pipeline, c06
+    rng = chk.rng
+    exe = vlib.build_cli()
+    names = ["--excl-line", "--excl-start", "--excl-stop", "--excl-br-line", "--excl-br-start", "--excl-br-stop"]
+    for i in range(n):
+        root = vlib.scratch("c16_cli_%d" % i)
+        src = os.path.join(root, "src")
+        os.makedirs(os.path.join(src, "com", "x"))
+        nl = rng.randrange(3, 12)
+        text = gen_text(rng, nl, rng.random() < 0.3)
+        use_xml = rng.random() < 0.5
+        rel = "com/x/Top.java" if use_xml else "w.c"
+        open(os.path.join(src, rel), "wb").write(text.encode())
+        if use_xml:
+            blob = c06.make_xml(rng, i)
+            blob = blob.replace(b'name="org/y/z"', b'name="com/x"').replace(b'name=""', b'name="com/x"')
+            blob = blob.replace(b"Other", b"Top").replace(b"Outer$Inner", b"Top").replace(b"Outer.java", b"Top.java")
+            inp = os.path.join(root, "in.xml")
+        else:
+            cov = gen_cov(rng, nl)
+            out = "TN:\nSF:%s\n" % rel
+            for l, c in cov["lines"]:
+                if l >= 1:
+                    out += "DA:%d,%d\n" % (l, c)
+            for l, v in cov["branches"]:
+                if l >= 1:
+                    for k, b in enumerate(v):
+                        out += "BRDA:%d,0,%d,%s\n" % (l, k, "1" if b else "-")
+            out += "end_of_record\n"
+            blob = out.encode()
+            inp = os.path.join(root, "in.info")
+        open(inp, "wb").write(blob)
+        branch = rng.random() < (0.35 if use_xml else 0.6)
+        parsed = vlib.run_impl("parse", [{"hex": blob.hex(), "format": "xml" if use_xml else "info", "branch": branch}], chk.pid)[0]
+        if "ok" not in parsed:
+            continue
+        recs = {bytes.fromhex(nm).decode(): gen.cov_canon(c) for nm, c in parsed["ok"]}
+        rx = rng.choice(REGEXES)
+        sub = rng.choice([63, 63, rng.randrange(64), 9, 18, 36, 8, 1]) if not use_xml else rng.choice([63, 8, 48, 24, 56, 63, rng.randrange(64)])
+        opts = [rx[j] if (sub >> j) & 1 else None for j in range(6)]
+        cmd = [exe, inp, "-s", src, "-t", "lcov", "--threads", "1"] + (["--branch"] if branch else [])
+        for nm, o in zip(names, opts):
+            if o is not None:
+                cmd += [nm, o]
+        env = dict(os.environ, TMPDIR=root)
+        p = subprocess.run(cmd, cwd=root, env=env, stdout=subprocess.PIPE, stderr=subprocess.PIPE, timeout=60)
+        chk.count()
+        hist = {"source": text, "input": blob.decode("utf-8", "replace"), "argv": cmd[1:], "branch": branch}
+        if p.returncode != 0:
+            chk.violation(dict(hist, kind="oracle", engine="cli", clause="grcov failed", stderr=p.stderr.decode()[-400:]), tag="cli")
+            continue
+        rep = pipeline.read_lcov_report(p.stdout)
+        bad = None
+        for nm, cov in recs.items():
+            if not os.path.exists(os.path.join(src, nm)):
+                continue
+            exp = ref(text, opts, cov, True)
+            got = rep.get(nm.encode(), [None])[0]
+            if got is None:
+                bad = "file %s missing from the report" % nm
+            elif got["lines"] != exp["lines"] or got["branches"] != exp["branches"]:
+                bad = "file %s: reported %s, expected %s" % (nm, {"lines": got["lines"], "branches": got["branches"]},
+                                                              {"lines": exp["lines"], "branches": exp["branches"]})
+        if bad:
+            chk.violation(dict(hist, kind="oracle", engine="cli", clause="with the --excl-* options given on the command line the report carries the input record minus exactly the excluded lines and branches: " + bad), tag="cli")
+        else:
+            chk.nontrivial(["cli", i, cmd[1:]])
+        import shutil
+        shutil.rmtree(root, ignore_errors=True)
+
+
 def run(chk):
     chk.proofs()
     cases = make_cases(chk, 500 if chk.tier == "quick" else 6000)
     dist = evaluate(chk, cases, "gen")
     crlf_pairs(chk, cases)
+    cli_stream(chk, 40 if chk.tier == "quick" else 600)
     # exhaustive small scope: every sequence of per-line flag vectors up to length k, all options on
     k = 2
     ex = []
